@@ -559,3 +559,46 @@ Proof.
   intros n Hi Hn. unfold to_snake, to_delimited, to_screaming_delimited.
   rewrite (trim_space_ident n Hi). now apply snake_nf_fixed.
 Qed.
+
+(* ---- UpperCamel words are fixed points of ToCamel and of ToCamel . ToSnake ----------- *)
+Theorem to_camel_upper_word : forall n, upper_word n = true -> to_camel n = n.
+Proof.
+  intros n Hn. unfold to_camel, to_camel_init. rewrite (trim_space_ident n (upper_word_ident n Hn)).
+  destruct n as [|c r]; [discriminate|]. cbn [upper_word] in Hn.
+  apply andb_true_iff in Hn. destruct Hn as [Hc Hr].
+  cbn [camel_go]. rewrite Hc, (cap_not_low c Hc). cbn [orb]. f_equal. now apply camel_go_tail.
+Qed.
+
+Theorem to_camel_to_snake_upper_word : forall n, upper_word n = true -> to_camel (to_snake n) = n.
+Proof.
+  intros n Hn. pose proof (upper_word_ident n Hn) as Hi.
+  unfold to_camel, to_camel_init, to_snake, to_delimited, to_screaming_delimited.
+  rewrite (trim_space_ident n Hi), (trim_space_ident _ (ident_delimited n false Hi)).
+  destruct n as [|c r]; [discriminate|]. cbn [upper_word] in Hn.
+  apply andb_true_iff in Hn. destruct Hn as [Hc Hr].
+  rewrite delimited_go_cons, Hc. cbn [andb app].
+  rewrite (camel_tail_head_num _ _ Hr). cbn [app].
+  assert (Ev : conv false c = c + 32) by (unfold conv; rewrite (cap_not_low c Hc), Hc; reflexivity).
+  rewrite Ev. cbn [camel_go].
+  rewrite (cap_lower_is_low c Hc), (low_not_cap _ (cap_lower_is_low c Hc)). cbn [orb].
+  rewrite (cap_lower_upper c Hc). f_equal.
+  apply (lc_snake_aux r true false false); [assumption| |discriminate].
+  symmetry. now apply camel_tail_true_head.
+Qed.
+
+Theorem to_snake_upper_word_lower : forall n, upper_word n = true ->
+  to_lower_camel (to_snake n) = match n with c :: r => (c + 32) :: r | [] => [] end.
+Proof.
+  intros n Hn. pose proof (upper_word_ident n Hn) as Hi.
+  unfold to_lower_camel, to_camel_init, to_snake, to_delimited, to_screaming_delimited.
+  rewrite (trim_space_ident n Hi), (trim_space_ident _ (ident_delimited n false Hi)).
+  destruct n as [|c r]; [discriminate|]. cbn [upper_word] in Hn.
+  apply andb_true_iff in Hn. destruct Hn as [Hc Hr].
+  rewrite delimited_go_cons, Hc. cbn [andb app].
+  rewrite (camel_tail_head_num _ _ Hr). cbn [app].
+  assert (Ev : conv false c = c + 32) by (unfold conv; rewrite (cap_not_low c Hc), Hc; reflexivity).
+  rewrite Ev. cbn [camel_go].
+  rewrite (cap_lower_is_low c Hc), (low_not_cap _ (cap_lower_is_low c Hc)). cbn [orb]. f_equal.
+  apply (lc_snake_aux r true false false); [assumption| |discriminate].
+  symmetry. now apply camel_tail_true_head.
+Qed.
